@@ -260,6 +260,18 @@ def gen_case(rnd, kind, cid, maxops, stats, allow_ttl0=True, probe_every=True):
     return lines
 
 
+def gen_rr_stress(rnd, cid, cap, nins):
+    """rr: many inserts of fresh keys into a full cache, a probe after each: the victims' slots (C15 spread)"""
+    keys = list(range(1, cap + nins + 1))
+    lines = ["case %s 3 %d 0 1 %d 0 1 0 0 %d %s" % (cid, rnd.choice([0, 1]), cap, len(keys), " ".join(map(str, keys)))]
+    now = 1000 * MS
+    for i, k in enumerate(keys):
+        lines.append("op %d insert 0 %d %d 3" % (now, k, 100 + i))
+        lines.append("probe %d" % now)
+    lines.append("end")
+    return lines
+
+
 def main():
     ap = argparse.ArgumentParser()
     ap.add_argument("--seed", type=int, default=1)
@@ -278,6 +290,10 @@ def main():
             mo = a.maxops if i % 4 else max(6, a.maxops // 4)
             for l in gen_case(rnd, a.kind, "%s-%d-%d" % (a.kind, a.seed, i), mo, stats, allow_ttl0=not a.no_ttl0):
                 f.write(l + "\n")
+        if a.kind == "rr":
+            for j, cap in enumerate([2, 3, 4, 5, 2, 3, 4, 5]):
+                for l in gen_rr_stress(rnd, "rr-%d-stress%d" % (a.seed, j), cap, 120):
+                    f.write(l + "\n")
     if a.stats:
         with open(a.stats, "w") as f:
             json.dump(stats, f)
